@@ -232,24 +232,35 @@ fn main() {
     let mut results: Vec<Vec<String>> = Vec::new();
     let mut handles = Vec::new();
     for part in cases.chunks(chunk.max(1)) {
-        let part: Vec<String> = part.to_vec();
+        let part: std::sync::Arc<Vec<String>> = std::sync::Arc::new(part.to_vec());
         let idc = id_owned.clone();
         handles.push(std::thread::spawn(move || {
-            let mut out = Vec::with_capacity(part.len());
-            for l in part {
-                let (tx, rx) = std::sync::mpsc::channel();
-                let idd = idc.clone();
-                let line = l.clone();
+            // one long-lived worker (64 MiB stack) runs the cases of this chunk in order; the watchdog waits for each
+            // result, and when a case does not finish in time the worker is abandoned (it dies with the process) and a
+            // new one continues after that case
+            let mut out: Vec<String> = Vec::with_capacity(part.len());
+            let mut start = 0usize;
+            while start < part.len() {
+                let (tx, rx) = std::sync::mpsc::channel::<String>();
+                let (idd, cases, from) = (idc.clone(), part.clone(), start);
                 std::thread::Builder::new()
                     .stack_size(64 << 20)
                     .spawn(move || {
-                        let _ = tx.send(run_line(&idd, &line));
+                        for l in cases[from..].iter() {
+                            if tx.send(run_line(&idd, l)).is_err() { break; }
+                        }
                     })
                     .unwrap();
-                out.push(match rx.recv_timeout(limit) {
-                    Ok(r) => r,
-                    Err(_) => "TIMEOUT".to_string(),
-                });
+                let mut timed_out = false;
+                while out.len() < part.len() {
+                    match rx.recv_timeout(limit) {
+                        Ok(r) => out.push(r),
+                        Err(std::sync::mpsc::RecvTimeoutError::Timeout) => { out.push("TIMEOUT".to_string()); timed_out = true; break; }
+                        Err(std::sync::mpsc::RecvTimeoutError::Disconnected) => { out.push("PANIC worker thread died".to_string()); timed_out = true; break; }
+                    }
+                }
+                start = out.len();
+                if !timed_out { break; }
             }
             out
         }));
